@@ -66,6 +66,9 @@ def formatter_case(old_src, new_src, leafvals, approved):
     for cfg in ("black", "no-black", "format-command"):
         ns = dict(SUPPORT_NS)
         ns.update(leafvals)
+        ns["QUOTES"] = "'\""          # both quote kinds, ends with a quote
+        ns["BOTH"] = "it's 'x' \"y\""
+        ns["BYTES"] = b"\x00\"q'"
         world.reset(ns)
         new = eval(new_src, dict(W.ns))
         W.ns["new"] = new
@@ -144,6 +147,13 @@ def conditions(tier):
         ("P(a=c0)", "P(a=n0, b=n1, c=[n2])", ["c0", "n0", "n1", "n2"], {"fix"}),
         ("(c0,)", "(n0, n1)", ["c0", "n0", "n1"], {"fix"}),
         ("[h0, c1]", "[n0, n1]", ["h0", "c1", "n0", "n1"], {"fix", "update"}),
+        # string leaves (concrete): the formatter must not change the value of a lone or nested literal
+        ("", "QUOTES", ["n0"], {"create"}),
+        ("c0", "QUOTES", ["c0"], {"fix"}),
+        ("[c0]", "[n0, QUOTES, ' a ']", ["c0", "n0"], {"fix"}),
+        ("{1: c0}", "{1: n0, 2: BOTH}", ["c0", "n0"], {"fix"}),
+        ("", "' a '", ["n0"], {"create"}),
+        ("", "[BYTES, n0]", ["n0"], {"create"}),
     ]
     for i, (o, n, names, appr) in enumerate(cases):
         body = f"return formatter_case({o!r}, {n!r}, {{{', '.join(f'{x!r}: {x}' for x in names)}}}, {appr!r})"
